@@ -233,6 +233,22 @@ def check_sequence(case, seq, rec):
         h = headers[0]
         if h[0] != 0 or h[1] != 0:
             symptoms.append('header-index')
+    # the sequence object itself: a list of its symbols - iterating twice, len(), indexing and slicing agree
+    try:
+        first = [bytes(b''.join(bytes(r) for r in q.matrix)) for q in seq]
+        again = [bytes(b''.join(bytes(r) for r in q.matrix)) for q in seq]
+        by_index = [bytes(b''.join(bytes(r) for r in seq[i].matrix)) for i in range(len(seq))]
+        rec.count('sequence_objects_walked')
+        if not (first == again == by_index) or len(first) != n or \
+                bytes(b''.join(bytes(r) for r in seq[-1].matrix)) != first[-1] or len(seq[:1]) != 1:
+            symptoms.append('sequence-object-inconsistent')
+        if n == 1:
+            # a sequence of one hands attribute access over to its only symbol
+            q0 = seq[0]
+            if (seq.designator, seq.version, seq.error, seq.mask, seq.is_micro) != (q0.designator, q0.version, q0.error, q0.mask, q0.is_micro):
+                symptoms.append('single-symbol-delegation')
+    except Exception as ex:  # noqa: BLE001
+        symptoms.append('sequence-object-raises-%s' % type(ex).__name__)
     return symptoms, info
 
 
